@@ -129,10 +129,17 @@ fn apply_real(b: Builder, c: &Call, log: &Arc<Log>) -> Result<Builder, Error> {
         Call::Functions(ns) => b.with_functions(ns.iter().map(|n| Box::new(tfn(n, log)) as Box<dyn UserFunction + Send + Sync + 'static>).collect::<Vec<_>>()),
         Call::Symbol(n, v) => Ok(b.with_symbol(*n, Value::Int(*v))),
         Call::Symbols(items) => {
-            let mut s = Symbols::default();
-            for (n, v) in items {
-                s.insert(*n, Value::Int(*v));
-            }
+            // both ways of making a symbol table: insert one by one, or From<iterator of pairs>
+            let s = if items.len() % 2 == 1 {
+                let mut s = Symbols::default();
+                for (n, v) in items {
+                    s.insert(*n, Value::Int(*v));
+                }
+                s
+            } else {
+                // From keeps the last of repeated names, like repeated insert
+                Symbols::from(items.iter().map(|(n, v)| (*n, Value::Int(*v))).collect::<Vec<_>>())
+            };
             b.with_symbols(s)
         }
     }
